@@ -71,10 +71,12 @@ def gen_controller(rng):
 def generate(rng, idx, tier):
     cfg = {"template": c08._wchoice(rng, TEMPLATES)}
     ol = [{"op": "template", "name": cfg["template"]}]
-    for _ in range(rng.randint(0, 2)):
+    for _ in range(rng.randint(0, 3)):
+        # start taps anywhere in the range and - biased - exactly at the limits; tap changer side hv or lv
         ol.append({"op": "start_tap", "element": rng.choice(["trafo", "trafo", "trafo3w"]), "row": rng.randrange(100),
-                   "frac": round(rng.random(), 3), "neg_step": rng.random() < 0.1,
-                   "tap_side": rng.choice([None, None, "lv"])})
+                   "frac": rng.choice([0.0, 1.0, round(rng.random(), 3), round(rng.random(), 3)]),
+                   "neg_step": rng.random() < 0.1, "tap_side": rng.choice([None, "hv", "lv", "lv"]),
+                   "eg_vm": rng.choice([None, None, 0.96, 1.06])})
     for _ in range(rng.randint(1, 5)):
         ol.append(gen_controller(rng))
     for call in range(rng.randint(1, 3)):
@@ -172,10 +174,15 @@ def execute(ep, ctx):
                 continue
             lo, hi = int(net[el].at[r, "tap_min"]), int(net[el].at[r, "tap_max"])
             net[el].at[r, "tap_pos"] = int(round(lo + op["frac"] * (hi - lo)))
-            if op.get("neg_step"):
+            tabled = "tap_dependency_table" in net[el].columns and bool(net[el].at[r, "tap_dependency_table"])
+            if op.get("neg_step") and not tabled:
+                # (with a tap dependency table the ratio comes from the table: a negative tap_step_percent would
+                # contradict it - an inconsistent input, not a controller property)
                 net[el].at[r, "tap_step_percent"] = -abs(float(net[el].at[r, "tap_step_percent"]))
             if op.get("tap_side") and el == "trafo":
                 net[el].at[r, "tap_side"] = op["tap_side"]
+            if op.get("eg_vm"):
+                net.ext_grid["vm_pu"] = op["eg_vm"]     # pushes voltages towards / beyond the bands
             ctx.event("start_tap", el, int(r), int(net[el].at[r, "tap_pos"]))
         elif k == "set":
             st, _ = ops.apply_basic(net, op)
@@ -447,6 +454,24 @@ def _check_return(net, ctrls, op, kw, bad, ctx, multi, events=()):
                 ctx.probe("tap_at_limit_on_return")
             if np.isnan(vm):
                 continue
+            # "at the limit in the needed direction": if the voltage is outside the band with the tap at a
+            # limit, one step back into the range must not bring the voltage closer to the band
+            if o["kind"] == "continuous":
+                lo_v, hi_v = c.vm_set_pu * (1 - c.tol), c.vm_set_pu * (1 + c.tol)
+            else:
+                lo_v, hi_v = c.vm_lower_pu, c.vm_upper_pu
+            dist = max(lo_v - vm, vm - hi_v, 0.0)
+            if at_limit and dist > 1e-9 and (o["kind"] != "continuous" or o["bounds"]):
+                probe = oracles.scrubbed_copy(net)
+                probe[el].at[r, "tap_pos"] = tp + 1 if tp <= lo + 1e-9 else tp - 1
+                _, pe = c08._plain_call(lambda: pp.runpp(probe, **kw))
+                if pe is None:
+                    vm2 = float(probe.res_bus.vm_pu.at[int(c.trafobus)])
+                    dist2 = max(lo_v - vm2, vm2 - hi_v, 0.0)
+                    if dist2 < dist - 1e-7:
+                        bad(4, f"{o['kind'].split('_')[0]}: tap at the limit opposite to the needed direction",
+                            f"{el} {r}: vm {vm:.5f} outside [{lo_v:.5f}, {hi_v:.5f}] with tap {tp} at a limit of "
+                            f"[{lo}, {hi}], but one step back into the range gives vm {vm2:.5f} (closer to the band)")
             if o["kind"] == "continuous":
                 ok = abs(1 - c.vm_set_pu / vm) < c.tol + 1e-12 or (at_limit and o["bounds"])
                 if not ok:
